@@ -26,7 +26,7 @@ FN2 = ["min", "max"]
 AGGS = ["arr_sum", "arr_prod", "arr_mean", "arr_median", "arr_stddev", "arr_rank2", "arr_size"]
 BOOLOPS = ["And", "Or", "Not"]
 
-ELS = ["a", "b", "c", "d", "e", "f", "g", "h"]
+ELS = ["a", "b", "c", "d", "e", "f", "g", "h", "i", "j", "k", "l", "m", "n", "o", "p"]
 VEC = {"v": 3, "w": 2}
 NUMS = [2.0, 3.0, 5.0, 7.0, -3.0, 4]
 
